@@ -184,12 +184,20 @@ def case_mibdump(idx, rng, tier, res):
             opts.append('--debug=' + rng.choice(['all', 'compiler', 'reader,searcher,writer', 'parser,codegen,borrower']))
             res.count('runs_with_debug_logging')
         borrowable = []
+        bor_text = {}       # module -> text of the copy in the first borrower (command-line order) holding it
+        bor2 = os.path.join(base, 'a-second-borrower')      # sorts before 'bor': order given != sorted order
+        os.makedirs(bor2)
+        two_borrowers = rng.random() < 0.5
         if ext and rng.random() < 0.4:
             for m in mods:
-                if rng.random() < 0.5:
-                    with open(os.path.join(bor, m + ext), 'w') as f:
-                        f.write('BORROWED copy of %s\n' % m if fmt == 'json' else '# borrowed %s\n' % m)
-                    borrowable.append(m)
+                for bi, bdir in enumerate([bor, bor2] if two_borrowers else [bor]):
+                    if rng.random() < 0.5:
+                        t_ = ('BORROWED copy of %s at borrower %d\n' if fmt == 'json' else '# borrowed %s at borrower %d\n') % (m, bi)
+                        with open(os.path.join(bdir, m + ext), 'w') as f:
+                            f.write(t_)
+                        bor_text.setdefault(m, t_)
+                        if m not in borrowable:
+                            borrowable.append(m)
         # stale / fresh pre-existing destination files
         pre = {}
         if ext and rng.random() < 0.3:
@@ -220,7 +228,8 @@ def case_mibdump(idx, rng, tier, res):
                 src_args = ['--mib-source=' + src0] + src_args
                 res.count('broken_copy_in_earlier_source')
         args = src_args + ['--destination-directory=' + dst, '--destination-format=' + fmt,
-                '--mib-borrower=' + bor, '--mib-searcher=' + dst] + opts
+                '--mib-borrower=' + bor] + (['--mib-borrower=' + bor2] if two_borrowers else []) + \
+            ['--mib-searcher=' + dst] + opts
         names = [alias[1] if alias and alias[0] == r else r for r in requested]
         before = faults.snapshot(dst)
         # the index document is the one thing --no-mib-writes still stores; a dry run stores nothing at all
@@ -301,6 +310,18 @@ def case_mibdump(idx, rng, tier, res):
         if changed != expect:
             V('files_vs_report', 'files new/changed in the destination %s, report says created=%s borrowed=%s' % (
                 sorted(changed), rep['created'], rep['borrowed']), dry=('--dry-run' in opts or '--no-mib-writes' in opts))
+        # a borrowed module is the verbatim copy of the first borrower, in the order given, that holds it
+        if ext and '--dry-run' not in opts and '--no-mib-writes' not in opts:
+            for m in (rep['borrowed'] or []):
+                try:
+                    with open(os.path.join(dst, m + ext)) as f:
+                        onfile = f.read()
+                except OSError:
+                    continue        # files_vs_report has spoken
+                res.count('borrowed_files_compared')
+                if m in bor_text and onfile != bor_text[m]:
+                    V('borrowed_copy_source', '%s reported borrowed, the stored file reads %r, the first borrower '
+                      'holding it has %r' % (m, onfile[:60], bor_text[m][:60]), two=two_borrowers)
         if watch and ino.events:
             V('dryrun_inotify_event', 'filesystem events in the destination during a dry run: %s' % ino.events[:6])
         for c, ns in rep.items():
